@@ -11,7 +11,7 @@ Section Close.
 
   (* what one operation must answer, given whether the store has been closed (and whether closing it
      closed the backing: OpenReadOnly's mmap) *)
-  Definition step_spec (o : qopts) (wid : bool) (ro : option (list bytes)) (bs : list block)
+  Definition step_spec (o : qopts) (wid : bool) (ro : option (list bytes)) (bs : list block) (npad : N)
              (closed mmap : bool) (op : roop) (a : roans) : Prop :=
     match op with
     | RHas key => forall kp, cid_parse key = Some kp -> id_guard o wid kp = true ->
@@ -28,26 +28,36 @@ Section Close.
     | RKeys => a = AKeys (if closed then KOpenErr EClosed else KKeys (ref_keys (q_whole o) bs) None)
     | RRoots => a = AOut (if closed && mmap then OErr EOther else OKeys (hdr_roots ro))
     | RClose => a = AOut ONil
+    (* the refused write methods and HashOnRead: fixed answers, open or closed *)
+    | RPut _ _ | RPutMany _ | RDelete _ => a = AReadOnly
+    | RHashOnRead _ => a = AOut ONil
+    (* Index().GetAll: only offsets of sections of the payload, and the offset of every section carrying the
+       key that the index in use records (all but identity sections of an index without identity entries) *)
+    | RIndexGetAll key => forall kp, cid_parse key = Some kp ->
+        exists offs, a = AOffs offs /\
+          (forall off, In off offs -> exists b, In b bs /\ sec_at (payload_np ro bs npad) off b) /\
+          (forall b, In b bs -> carries false key kp b = true -> (is_identity kp = true -> wid = true) ->
+                     exists off, In off offs /\ sec_at (payload_np ro bs npad) off b)
     end.
 
-  Fixpoint run_spec (o : qopts) (wid : bool) (ro : option (list bytes)) (bs : list block)
+  Fixpoint run_spec (o : qopts) (wid : bool) (ro : option (list bytes)) (bs : list block) (npad : N)
            (closed mmap : bool) (ops : list roop) (anss : list roans) : Prop :=
     match ops, anss with
     | [], [] => True
-    | op :: t, a :: u => step_spec o wid ro bs closed mmap op a /\
-                         run_spec o wid ro bs (closed || is_rclose op) mmap t u
+    | op :: t, a :: u => step_spec o wid ro bs npad closed mmap op a /\
+                         run_spec o wid ro bs npad (closed || is_rclose op) mmap t u
     | _, _ => False
     end.
 
   Lemma ss_step_spec ss o wid ro bs npad op :
     arch_ok hdrdec o ro bs npad -> opened (ss_st ss) o wid ro bs npad ->
     blen (payload_np ro bs npad) < two63 ->
-    step_spec o wid ro bs (ss_closed ss) (ss_mmap ss) op (snd (ss_step hdrdec ss op)) /\
+    step_spec o wid ro bs npad (ss_closed ss) (ss_mmap ss) op (snd (ss_step hdrdec ss op)) /\
     ss_st (fst (ss_step hdrdec ss op)) = ss_st ss /\ ss_mmap (fst (ss_step hdrdec ss op)) = ss_mmap ss /\
     ss_closed (fst (ss_step hdrdec ss op)) = (ss_closed ss || is_rclose op).
   Proof.
     intros Ha Hop H63. pose proof Hop as (_ & Hopts & _).
-    destruct op as [key|key|key| | |]; cbn [ss_step fst snd is_rclose step_spec];
+    destruct op as [key|key|key| | | |key data|blks|key|en|key]; cbn [ss_step fst snd is_rclose step_spec];
       rewrite ?orb_false_r, ?orb_true_r; (split; [|repeat split; reflexivity]).
     - intros kp Hk Hg. unfold ss_has. rewrite Hk, Hopts. fold (shortcut o kp).
       destruct (shortcut o kp) eqn:Es; [reflexivity|]. destruct (ss_closed ss); [reflexivity|].
@@ -66,12 +76,28 @@ Section Close.
     - destruct (ss_closed ss && ss_mmap ss); [reflexivity|].
       rewrite (ro_roots_spec hdrdec (ss_st ss) o wid ro bs npad Ha Hop). reflexivity.
     - reflexivity.
+    - reflexivity.
+    - reflexivity.
+    - reflexivity.
+    - reflexivity.
+    - intros kp Hk. rewrite Hk. eexists. split; [reflexivity|].
+      destruct Hop as (_ & _ & Hs & Hc). split.
+      + intros off Hoff. destruct (Hs kp off Hoff) as (r & Hr & Hro).
+        destruct (payload_records_sound wid ro bs npad r Hr) as (b & p & Hsec & Hb & _).
+        exists b. split; [exact Hb|]. rewrite <- Hro. exact Hsec.
+      + intros b Hb Hcar Hwid. unfold carries in Hcar. destruct (cid_parse (fst b)) as [p|] eqn:Ep; [|discriminate].
+        destruct (key_matches_mh false key kp (fst b) p Hk Ep Hcar) as [Hcode Hdig].
+        assert (Hkeep : (wid || negb (is_identity p)) = true).
+        { unfold is_identity in *. rewrite Hcode. destruct (c_mhcode kp =? 0) eqn:E0; [|apply orb_true_r].
+          rewrite (Hwid eq_refl). reflexivity. }
+        destruct (payload_records_complete wid ro bs npad b p Hb Ep Hkeep) as (off & Hr & Hsec).
+        exists off. split; [|exact Hsec]. exact (Hc kp _ Hr Hcode Hdig).
   Qed.
 
   Theorem ss_run_spec o wid ro bs npad : forall ops ss,
     arch_ok hdrdec o ro bs npad -> opened (ss_st ss) o wid ro bs npad ->
     blen (payload_np ro bs npad) < two63 ->
-    run_spec o wid ro bs (ss_closed ss) (ss_mmap ss) ops (ss_run hdrdec ss ops).
+    run_spec o wid ro bs npad (ss_closed ss) (ss_mmap ss) ops (ss_run hdrdec ss ops).
   Proof.
     induction ops as [|op t IH]; intros ss Ha Hop H63; [exact I|]. cbn [ss_run run_spec].
     destruct (ss_step_spec ss o wid ro bs npad op Ha Hop H63) as (Hs & Hst & Hmm & Hcl).
@@ -83,7 +109,7 @@ Section Close.
   Theorem ro_history_refines o ct ro bs npad file sup si :
     file_ok hdrdec o ct ro bs npad file -> supplied_ok hdrdec sup si ro bs npad ->
     exists s, ro_open hdrdec o file si = Ok s /\
-      forall mmap ops, run_spec o (index_wid o ct sup) ro bs false mmap ops (ss_run hdrdec (mkss s false mmap) ops).
+      forall mmap ops, run_spec o (index_wid o ct sup) ro bs npad false mmap ops (ss_run hdrdec (mkss s false mmap) ops).
   Proof.
     intros Hfo Hsup. destruct (ro_open_ok hdrdec o ct ro bs npad file sup si Hfo Hsup) as (s & Hs & Hop).
     exists s. split; [exact Hs|]. intros mmap ops.
@@ -92,13 +118,17 @@ Section Close.
   Qed.
 End Close.
 
-(* a history on the example archive of ReadOnlyMain: ask, close, ask again, close again *)
+(* a history on the example archive of ReadOnlyMain: ask, try to write, close, ask again, close again *)
 Example ex_history :
   match ro_open dec_header_canon (ex_opts true) ex_file None with
   | Ok s => ss_run dec_header_canon (mkss s false true)
-              [RHas (ex_cid 113 x01); RClose; RHas (ex_cid 113 x01); RGet ex_idcid; RGetSize ex_idcid; RKeys; RRoots; RClose]
-            = [AOut (OBool true); AOut ONil; AOut (OErr EClosed); AOut (OErr EClosed); AOut (OSize 1);
-               AKeys (KOpenErr EClosed); AOut (OErr EOther); AOut ONil]
+              [RHas (ex_cid 113 x01); RPut (ex_cid 85 x09) [x01]; RHashOnRead true; RHas (ex_cid 113 x01);
+               RIndexGetAll (ex_cid 85 x02); RIndexGetAll (ex_cid 85 x09); RClose;
+               RHas (ex_cid 113 x01); RGet ex_idcid; RGetSize ex_idcid; RKeys; RRoots;
+               RDelete (ex_cid 113 x01); RPutMany [(ex_cid 85 x09, [])]; RIndexGetAll (ex_cid 85 x02); RClose]
+            = [AOut (OBool true); AReadOnly; AOut ONil; AOut (OBool true); AOffs [144]; AOffs []; AOut ONil;
+               AOut (OErr EClosed); AOut (OErr EClosed); AOut (OSize 1);
+               AKeys (KOpenErr EClosed); AOut (OErr EOther); AReadOnly; AReadOnly; AOffs [144]; AOut ONil]
   | Err _ => False
   end.
 Proof. vm_compute. reflexivity. Qed.
@@ -117,13 +147,16 @@ Theorem C07_history_full o ct ro bs npad file sup si :
                exists i, gen_flat dec_header_canon og 0 (payload_np ro bs npad) = Ok i /\ si = Some i
   end ->
   exists s, ro_open dec_header_canon o file si = Ok s /\
-    forall mmap ops, run_spec o (index_wid o ct sup) ro bs false mmap ops
+    forall mmap ops, run_spec o (index_wid o ct sup) ro bs npad false mmap ops
                               (ss_run dec_header_canon (mkss s false mmap) ops).
 Proof.
   intros Hf Hr Hl H63 Hc Hv Hs. pose proof (car_file_payload_le ct ro bs npad file Hf) as Hle.
   apply (ro_history_refines dec_header_canon o ct ro bs npad file sup si);
     [apply mk_file_ok; assumption|apply mk_supplied_ok; try assumption; lia].
 Qed.
+
+Lemma ss_step_stutter hdrdec ss op : op <> RClose -> fst (ss_step hdrdec ss op) = ss.
+Proof. destruct op; intros H; try reflexivity. congruence. Qed.
 
 (* index offsets that are not int64: the walk FindCid performs only ever visits offsets below 2^63, and
    when it reaches a larger one without having found the key the answer is an error, never a block *)
